@@ -946,6 +946,17 @@ fn models(thorough: bool) -> Vec<PipeModel> {
             ops.push(Op::Withdraw { src: 0, pfx: 0 });
             ops.push(Op::EndDeferral);
         }
+        // add-path window of 2 over three sources of one prefix: an implicit update (re-announcement with
+        // other attributes) moves a path across the window boundary
+        if pack == "apwin" {
+            ops.clear();
+            for s in 0..3u8 {
+                ops.push(Op::Announce { src: s, pfx: 0, attr: 0, nh: if s == 1 { 1 } else { 0 } });
+            }
+            for s in 0..3u8 {
+                ops.push(Op::Announce { src: s, pfx: 0, attr: 1, nh: if s == 1 { 1 } else { 0 } });
+            }
+        }
         // several events of different kinds waiting in the session's channel at once
         if pack == "held" {
             ops.clear();
@@ -987,6 +998,7 @@ fn models(thorough: bool) -> Vec<PipeModel> {
         mk("c01-ibgp-refresh-ahead", ObsRole::Ibgp, 1, 1, "ahead"),
         mk("c01-ebgp-restart-2shards", ObsRole::Ebgp, 1, 2, "restart"),
         mk("c01-ebgp-held-queue", ObsRole::Ebgp, 1, 1, "held"),
+        mk("c01-ebgp-addpath2-window", ObsRole::Ebgp, 2, 1, "apwin"),
     ];
     if thorough {
         v.push(mk("c01-ebgp-addpath2", ObsRole::Ebgp, 2, 1, "multi"));
